@@ -400,18 +400,23 @@ func mmvs(xs []float64) string {
 	}
 	return cList(it)
 }
+// absent renders a negative or missing number: larger than every table and every buffer of a test scene (so every
+// range check of the Coq checker fails on it), small enough for N.to_nat in nth_error (a 2^32 or 2^64 literal would
+// make vm_compute build a unary number of that size and never come back)
+const absent = "1000003"
+
 func cOptI(p *int) string {
-	if p == nil || *p < 0 {
-		if p != nil {
-			return "(Some 4294967295)" // negative index: certainly dangling
-		}
+	if p == nil {
 		return "None"
+	}
+	if *p < 0 || *p > 1000003 {
+		return "(Some " + absent + ")" // certainly dangling
 	}
 	return fmt.Sprintf("(Some %d)", *p)
 }
-func nn(i int) string { // summary integers are naturals; a negative number is rendered as a huge one
+func nn(i int) string { // summary integers are naturals; a negative (or absent required) number is rendered out of range
 	if i < 0 {
-		return "18446744073709551615"
+		return absent
 	}
 	return fmt.Sprintf("%d", i)
 }
